@@ -25,6 +25,7 @@ import numpy as np
 
 from . import env
 from .env import HarnessError
+from oracle.geom import OracleUnreliable
 
 EPS = 2.0**-52
 
@@ -200,6 +201,10 @@ def run_case(clause, case):
         raise
     except HarnessError:
         raise
+    except OracleUnreliable:
+        rec.fails.clear()
+        rec.nontrivial = False
+        rec.labels = {"oracle_abstained"}
     except Exception as e:  # noqa: BLE001
         tb = traceback.extract_tb(e.__traceback__)
         cox = [f for f in tb if os.path.abspath(f.filename).startswith(env.REPO + os.sep)]
